@@ -18,14 +18,17 @@ func c13Plan(n, ops, intervalMs, cap int) *driver.Plan {
 }
 
 func c13Gen(r *driver.Rand, thorough bool) *driver.Plan {
-	ops := driver.Pick(r, 1, 2, 3, 5)
+	ops := driver.Pick(r, 1, 2, 3, 5, 8)
 	iv := driver.Pick(r, 10, 100, 1000)
-	c := driver.Pick(r, 0, 1, 3)
+	c := driver.Pick(r, 0, 1, 3, 8)
 	n := r.Intn(6*ops + 4)
 	if thorough && r.Chance(1, 4) {
 		n = r.Intn(60)
 	}
 	p := c13Plan(n, ops, iv, c)
+	if r.Chance(1, 4) {
+		p.Inputs[0] = genValues(r, n)
+	}
 	switch r.Intn(5) {
 	case 0: // (i) input always available, consumer always ready
 	case 1: // (ii) no consumer for a while, then it saturates: the burst after an idle period
